@@ -192,7 +192,14 @@ def run(ctx):
     ctx.rule('R5', 'update_modified_cnst_set_from_variable runs while the elements of the variable are in enabled_element_set_: before they are erased, after they are inserted', 3)
     from ..cfg import abstract_run as _arun
     n5 = 0
-    for f in sorted(P.methods_of(SYS), key=lambda f_: f_['key']):
+    # premise of the rule: the walk really goes through enabled_element_set_ (if it were rewritten to follow var->cnsts_ the order would not matter)
+    recf = P.fn(SYS + '::update_modified_cnst_set_rec')
+    premise = any(n.get('k') == 'Mem' and (n.get('d') or {}).get('n', '').endswith('::enabled_element_set_') for el in recf['elems'] for n in ex.walk(el['x']))
+    ctx.check(premise, 'R5', 'update_modified_cnst_set_rec reaches the neighbours of a constraint through enabled_element_set_ (premise of the ordering rule)', where(recf),
+              '' if premise else 'the walk no longer uses enabled_element_set_: the ordering rule has to be re-derived', key='R5|rec|premise')
+    if not premise:
+        n5 = 3
+    for f in (sorted(P.methods_of(SYS), key=lambda f_: f_['key']) if premise else []):
         if not f.get('blocks'):
             continue
         v5 = A.view(f)
